@@ -162,25 +162,26 @@ func (s *session) markDiverged(step int, why string) {
 
 // diag is the state of the real client as far as it can be observed without blocking.
 type diag struct {
-	CallerBlocked    bool `json:"callerBlocked"`
-	SubQ             int  `json:"subq"`
-	UnsubQ           int  `json:"unsubq"`
-	Cap              int  `json:"cap"`
-	LockFree         bool `json:"lockFree"`
-	StreamUp         bool `json:"streamUp"`
-	PendNS           bool `json:"pendNS"`
-	PendSend         bool `json:"pendSend"`
-	RetryOutstanding bool `json:"retryOutstanding"`
-	MsgsOnStream     int  `json:"msgsOnStream"`
-	Streams          int  `json:"streams"`
-	NSRequests       int  `json:"nsRequests"`
+	CallerBlocked    bool   `json:"callerBlocked"`
+	SubQ             int    `json:"subq"`
+	UnsubQ           int    `json:"unsubq"`
+	Cap              int    `json:"cap"`
+	LockFree         bool   `json:"lockFree"`
+	StreamUp         bool   `json:"streamUp"`
+	PendNS           bool   `json:"pendNS"`
+	PendSend         bool   `json:"pendSend"`
+	RetryOutstanding bool   `json:"retryOutstanding"`
+	LastFailKind     string `json:"lastFailKind"`
+	MsgsOnStream     int    `json:"msgsOnStream"`
+	Streams          int    `json:"streams"`
+	NSRequests       int    `json:"nsRequests"`
 }
 
 func (s *session) diagLocked() diag {
 	f := s.f
 	d := diag{CallerBlocked: f.callerBusy > 0, StreamUp: f.upLocked(), PendNS: f.pendNS != nil,
 		PendSend: f.pendSend != nil, RetryOutstanding: f.retryOutstanding, Streams: len(f.streams),
-		NSRequests: f.nsReqs}
+		NSRequests: f.nsReqs, LastFailKind: f.lastFailKind}
 	d.SubQ, d.UnsubQ, d.Cap = s.cli.QueueLens()
 	d.LockFree = s.cli.LockFree()
 	if f.cur != nil {
